@@ -117,6 +117,12 @@ GROUPS["bvf_iarray"] = dict(name="bvf_iarray", prelude=lambda ctx: BVF_PRELUDE +
 
 GROUPS["bvf_set_int"] = dict(name="bvf_set_int", prelude=lambda ctx: BVF_PRELUDE + iarray_prelude(ctx),
     items=lambda ctx: BVF_BASE + int_impl_j(ctx) + stub(BVF_CORE) + slice_ia() + with_ctx(verify(["bvf.set_int"]), YJ))
+GROUPS["bvd_set_int"] = dict(name="bvd_set_int", features="#![feature(allocator_api)]", prelude=lambda ctx: BVD_PRELUDE + iarray_prelude_d(ctx),
+    items=lambda ctx: BVD_BASE + int_impl_j(ctx) + stub(BVD_CORE) + slice_ia("stub", yj_d(ctx)) + with_ctx(verify(["bvd.set_int"]), yj_d(ctx)))
+GROUPS["bvf_from_slice"] = dict(name="bvf_from_slice", prelude=lambda ctx: BVF_PRELUDE + iarray_prelude(ctx),
+    items=lambda ctx: BVF_BASE + int_impl_j(ctx) + stub(BVF_CORE) + slice_ia() + with_ctx([("stub", "bvf.set_int")], YJ) + with_ctx(verify(["bvf.try_from_slice"]), YJ))
+GROUPS["bvd_from_slice"] = dict(name="bvd_from_slice", features="#![feature(allocator_api)]", prelude=lambda ctx: BVD_PRELUDE + iarray_prelude_d(ctx),
+    items=lambda ctx: BVD_BASE + int_impl_j(ctx) + stub(BVD_CORE) + slice_ia("stub", yj_d(ctx)) + with_ctx([("stub", "bvd.set_int")], yj_d(ctx)) + with_ctx(verify(["bvd.from_slice"]), yj_d(ctx)))
 def iarray_prelude_d(ctx):
     return ["iarray.rs"] + ([word_j()] if ctx["J"] != "u64" else []) + [("chunk.rs", {"Y": "_{J}" if ctx["J"] != "u64" else ""})]
 def yj_d(ctx):
@@ -141,7 +147,7 @@ GROUPS["casts"] = dict(name="casts", prelude=lambda ctx: ["base.rs"],
     items=lambda ctx: verify(["cast.from", "cast.to"]))
 def slice_jobs(pairs):
     """slice-level re-chunking under proof: int_len for every pair, get_int/set_int where the slice word is narrower than the chunk"""
-    return [("slice_len", {"I": i, "J": j}) for (i, j) in pairs] + [("slice_iarray", {"I": i, "J": j}) for (i, j) in pairs if INT_BITS[i] < INT_BITS[j]]
+    return [("slice_len", {"I": i, "J": j}) for (i, j) in pairs] + [("slice_iarray", {"I": i, "J": j, "R": str(INT_BITS[j] // INT_BITS[i])}) for (i, j) in pairs if INT_BITS[i] < INT_BITS[j]]
 def cast_jobs(types):
     return [("casts", {"A": a, "B": b}) for a in types for b in types]
 
@@ -348,6 +354,11 @@ GROUPS["bvf_mul_bvd"] = dict(name="bvf_mul_bvd", features="#![feature(allocator_
     items=lambda ctx: BVF_BASE + rhs_bvd_items(ctx) + [("stub", "bvf.int_len", {"J": "{I}", "Y": ""})] + ([("stub", "slice.int_len", {"J": "{I}", "Y": ""})] if ctx["I"] != "u64" else []) + stub(BVF_CORE) + verify(["bvf.mul_bvd"]))
 GROUPS["bvd_mul"] = G("bvd_mul", BVD_VAL_PRELUDE + ["value_mul.rs", "cmp_words.rs", "bvd_cmp.rs", "bvd_mul.rs"], BVD_BASE + stub(BVD_CORE) + verify(["bvd.mul_bvd"]))
 GROUPS["bvd_mul"]["features"] = "#![feature(allocator_api)]"
+GROUPS["bvf_mulforms"] = dict(name="bvf_mulforms",
+    prelude=lambda ctx: WORD_PRELUDE + ["conv_std.rs"] + VALUE_PRELUDE + ["bvf.rs", "bvf_val.rs"] + rhs_bvf_prelude(dict(ctx, SGN="+")),
+    items=lambda ctx: BVF_BASE + rhs_bvf_items(ctx) + stub(BVF_CORE) + stub(["bvf.mul_bvf"]) + verify(MULFORMS_F))
+GROUPS["bvd_mulforms"] = dict(name="bvd_mulforms", features="#![feature(allocator_api)]", prelude=lambda ctx: BVD_VAL_PRELUDE,
+    items=lambda ctx: BVD_BASE + stub(BVD_CORE) + stub(["bvd.mul_bvd"]) + verify(MULFORMS_D))
 GROUPS["bvd_mul_bvf"] = dict(name="bvd_mul_bvf", features="#![feature(allocator_api)]",
     prelude=lambda ctx: BVD_VAL_PRELUDE + ["value_mul.rs"] + src_bvf_prelude(dict(ctx, SGN="+")) + ["bvd_mul.rs"],
     items=lambda ctx: BVD_BASE + src_bvf_items(ctx) + [("stub", "bvd.int_len", {"J": "u64", "Y": ""})] + stub(BVD_CORE) + verify(["bvd.mul_bvf"]))
@@ -455,6 +466,9 @@ def div_bvf_items(ctx):
            ("stub", "bvf.partial_cmp_bvf", {"J": "{I}", "XJ": ""}), ("stub", "bvf.addsub_bvf", dict(ARITH["sub"], J="{I}", XJ=""))]
     return it + verify(["bvf.div_rem_bvf"])
 GROUPS["bvf_div"] = dict(name="bvf_div", prelude=div_bvf_prelude, items=div_bvf_items)
+DIVFORMS_F = ['bvf.div_ref_ref', 'bvf.div_ref_owned', 'bvf.div_owned_ref', 'bvf.div_owned_owned', 'bvf.div_assign_ref', 'bvf.div_assign_owned', 'bvf.rem_ref_ref', 'bvf.rem_ref_owned', 'bvf.rem_owned_ref', 'bvf.rem_owned_owned', 'bvf.rem_assign_ref', 'bvf.rem_assign_owned']
+GROUPS["bvf_divforms"] = dict(name="bvf_divforms", prelude=lambda ctx: WORD_PRELUDE + ["conv_std.rs"] + VALUE_PRELUDE + ["bvf.rs", "bvf_val.rs"] + rhs_bvf_prelude(dict(ctx, SGN="-")),
+    items=lambda ctx: BVF_BASE + rhs_bvf_items(ctx) + stub(BVF_CORE) + stub(["bvf.div_rem_bvf"]) + verify(DIVFORMS_F))
 def div_bvf_bvd_prelude(ctx):
     return (WORD_PRELUDE + ["conv_std.rs"] + VALUE_PRELUDE + ["value_div.rs", "bvf.rs", "bvf_val.rs", "bvf_div.rs"] + rhs_bvd_val_prelude(dict(ctx, SGN="-")) +
             [("bvd_div.rs", {"I": "u64", "X": "{XD}"}), "cmp_std.rs", "bvf_div2.rs"])
@@ -531,11 +545,15 @@ GROUPS["bvd_fmt"] = G("bvd_fmt", BVD_PRELUDE + ["iter.rs", "fmt.rs"], BVD_BASE +
     + stub(["iter.new", "iter.next", "bvd.iter"]) + verify(["bvd." + x for x in FMT3]))
 GROUPS["bvd_iterfwd"] = G("bvd_iterfwd", BVD_PRELUDE + ["iter.rs", "into_iter.rs"], BVD_BASE + [("decl", "decl.BitIterator")] + stub(BVD_CORE) + stub(["iter.new"]) + verify(["bvd.into_iter_ref", "bvd.iter"]))
 GROUPS["bvd_iterfwd"]["features"] = "#![feature(allocator_api)]"
+GROUPS["bv_iterfwd"] = G("bv_iterfwd", BV_PRELUDE + ["iter.rs", "into_iter.rs"], BV_BASE + [("decl", "decl.BitIterator")] + stub(["bv.len", "bv.get"]) + stub(["iter.new"]) + verify(["bv.into_iter_ref", "bv.iter"]))
+GROUPS["bv_iterfwd"]["features"] = "#![feature(allocator_api)]"
 GROUPS["bvd_fmt"]["features"] = "#![feature(allocator_api)]\nuse vstd::string::*;"
 GROUPS["bv_fmt"] = G("bv_fmt", BV_PRELUDE + ["bv_words.rs", "fmt.rs"], BV_BASE + stub(["bvf." + x for x in FMT3] + ["bvd." + x for x in FMT3]) + verify(["bv." + x for x in FMT3]))
 GROUPS["bv_fmt"]["features"] = "#![feature(allocator_api)]\nuse vstd::string::*;"
 # append / prepend of Bvd with a Bvd operand (ctx: BD, J, XB, HG2 as for div_rem)
-SPLICE_D = {"BD": "Bvd", "J": "u64", "XB": "", "HG2": ""}
+OPND = {"SD": "suffix.data@", "SL": "suffix.length", "PD": "prefix.data@", "PL": "prefix.length", "ND": "infix.data@", "NL": "infix.length"}
+OPND_BV = {"SD": "suffix.words()", "SL": "suffix.slen()", "PD": "prefix.words()", "PL": "prefix.slen()", "ND": "infix.words()", "NL": "infix.slen()"}
+SPLICE_D = dict({"BD": "Bvd", "J": "u64", "XB": "", "HG2": ""}, **OPND)
 GROUPS["bvd_splice"] = dict(name="bvd_splice", features="#![feature(allocator_api)]",
     prelude=lambda ctx: BVD_PRELUDE + ["iarray.rs", ("chunk.rs", {"J": "u64", "Y": ""}), "splice.rs"],
     items=lambda ctx: BVD_BASE + stub(BVD_CORE) + stub(["bvd.resize"]) + [("stub", "bvd.int_len", {"J": "u64", "Y": ""}), ("stub", "bvd.get_int", {"J": "u64", "Y": ""})] + slice_ia("stub", {"J": "u64", "Y": ""})
@@ -543,6 +561,7 @@ GROUPS["bvd_splice"] = dict(name="bvd_splice", features="#![feature(allocator_ap
 def splice_bvf_ctx(j):
     c = pair("u64", j)
     c.update({"BD": "Bvf<%s, N2>" % j, "XB": c["XJ"], "HG2": "<const N2: usize>"})
+    c.update(OPND)
     return c
 GROUPS["bvd_splice_bvf"] = dict(name="bvd_splice_bvf", features="#![feature(allocator_api)]",
     prelude=lambda ctx: BVD_PRELUDE + src_bvf_prelude(ctx) + ["splice.rs"],
@@ -550,7 +569,7 @@ GROUPS["bvd_splice_bvf"] = dict(name="bvd_splice_bvf", features="#![feature(allo
         + verify(["bvd.append", "bvd.prepend"]))
 # Bvf<I,N>.append/prepend(&Bvf<I,N2>): byte chunks of subject and operand (same word type K = I)
 def splicef_ctx(i):
-    return {"I": i, "J": "u8", "K": i, "XK": "", "Y8": "" if i == "u8" else "_u8", "BD": "Bvf<%s, N2>" % i, "HG2": "<const N2: usize>"}
+    return dict({"I": i, "J": "u8", "K": i, "XK": "", "Y8": "" if i == "u8" else "_u8", "BD": "Bvf<%s, N2>" % i, "HG2": "<const N2: usize>"}, **OPND)
 def splicef_prelude(ctx):
     y8 = ctx["Y8"]
     p = BVF_PRELUDE + ["iarray.rs"]
@@ -565,9 +584,56 @@ def splicef_items(ctx):
     it += [("stub", "bvf.shl_assign", {"T": "usize"}), ("stub", "bvf.is_empty")]
     return it + verify(["bvf.append", "bvf.prepend"])
 GROUPS["bvf_splice"] = dict(name="bvf_splice", prelude=splicef_prelude, items=splicef_items)
-GROUPS["bvf_insert"] = G("bvf_insert", BVF_PRELUDE, BVF_BASE + stub(BVF_CORE) + stub(["bvf.split_off"]) + [("stub", "bvf.append", {"BD": "Bvf<{I}, N2>", "HG2": "<const N2: usize>", "XK": "", "K": "{I}"})] + verify(["bvf.insert"]))
+GROUPS["bvf_insert"] = dict(name="bvf_insert", prelude=lambda ctx: BVF_PRELUDE, items=lambda ctx: BVF_BASE + stub(BVF_CORE) + stub(["bvf.split_off"]) + [("stub", "bvf.append", dict({"BD": "Bvf<{I}, N2>", "HG2": "<const N2: usize>", "XK": "", "K": "{I}"}, **OPND))] + verify(["bvf.insert"]))
 GROUPS["bvd_insert"] = G("bvd_insert", BVD_PRELUDE, BVD_BASE + stub(BVD_CORE) + stub(["bvd.split_off"]) + [("stub", "bvd.append", SPLICE_D)] + verify(["bvd.insert"]))
 GROUPS["bvd_insert"]["features"] = "#![feature(allocator_api)]"
+# operand Bv (read through its verified get_int / len; abstract view words() / slen())
+SPLICE_D_BV = dict({"I": "u64", "BD": "Bv", "J": "u64", "XB": "", "HG2": ""}, **OPND_BV)
+GROUPS["bvd_splice_bv"] = dict(name="bvd_splice_bv", features="#![feature(allocator_api)]",
+    prelude=lambda ctx: BV_PRELUDE + ["bv_words.rs", "splice.rs"],
+    items=lambda ctx: BV_BASE + stub(["bvd.resize", "bv.len", "bv.is_empty"]) + [("stub", "bvd.shl_assign", {"T": "usize"}), ("stub", "bv.int_len", {"J": "u64", "Y": ""}), ("stub", "bv.get_int", {"J": "u64", "Y": ""})]
+        + verify(["bvd.append", "bvd.prepend"]))
+SPLICE_F_BV = dict({"I": "u64", "J": "u8", "K": "u64", "XK": "", "Y8": "_u8", "BD": "Bv", "HG2": ""}, **OPND_BV)
+GROUPS["bvf_splice_bv"] = dict(name="bvf_splice_bv", features="#![feature(allocator_api)]",
+    prelude=lambda ctx: BV_PRELUDE + ["bv_words.rs", ("word.rs", {"I": "u8", "X": "_u8"}), ("chunk.rs", {"J": "u8", "Y": "_u8"}), "splice8.rs"],
+    items=lambda ctx: BV_BASE + int_impl_j(dict(ctx, J="u8")) + stub(["bv.len", "bv.is_empty"])
+        + [("stub", u, {"J": "u8", "Y": "_u8"}) for u in ("bvf.int_len", "bvf.get_int", "bvf.set_int", "bv.int_len", "bv.get_int")] + slice_ia("stub", {"J": "u8", "Y": "_u8"})
+        + [("stub", "bvf.shl_assign", {"T": "usize"})] + verify(["bvf.append", "bvf.prepend"]))
+GROUPS["bv_insert"] = dict(name="bv_insert", features="#![feature(allocator_api)]",
+    prelude=lambda ctx: BV_PRELUDE + ["bv_words.rs"],
+    items=lambda ctx: BV_BASE + stub(["bv.len", "bv.copy_range", "bv.resize"]) + [("stub", "bv.append", SPLICE_D_BV)] + verify(["bv.split_off", "bv.insert"]))
+GROUPS["bv_splice"] = dict(name="bv_splice", features="#![feature(allocator_api)]",
+    prelude=lambda ctx: BV_PRELUDE + ["bv_words.rs"],
+    items=lambda ctx: BV_BASE + stub(["bv.len"]) + [("stub", "bvf.append", SPLICE_F_BV), ("stub", "bvf.prepend", SPLICE_F_BV), ("stub", "bvd.append", SPLICE_D_BV), ("stub", "bvd.prepend", SPLICE_D_BV)]
+        + verify(["bv.append", "bv.prepend"]))
+# Bvf<I,N>.append/prepend(&Bvd): operand words u64 (vocabulary suffix XD), byte chunks
+def splicef_bvd_ctx(i):
+    xd = "" if i == "u64" else "_u64"
+    return dict({"I": i, "J": "u8", "K": "u64", "XK": xd, "XD": xd, "Y8": "" if i == "u8" else "_u8", "BD": "Bvd", "HG2": ""}, **OPND)
+def splicef_bvd_prelude(ctx):
+    i, y8, xd = ctx["I"], ctx["Y8"], ctx["XD"]
+    p = BVF_PRELUDE + ["iarray.rs"]
+    if i != "u8":
+        p += [("word.rs", {"I": "u8", "X": "_u8"})]
+    if i != "u64":
+        p += [("word.rs", {"I": "u64", "X": "_u64"})]
+    p += [("bvd.rs", {"X": xd}), ("chunk.rs", {"J": "u8", "Y": y8})]
+    if i != "u64":
+        p += [("chunk.rs", {"I": "u64", "J": "u8", "X": xd, "Y": y8})]
+    return p + ["splice8.rs"]
+def splicef_bvd_items(ctx):
+    i, y8, xd = ctx["I"], ctx["Y8"], ctx["XD"]
+    y = {"J": "u8", "Y": y8}
+    yd = {"I": "u64", "J": "u8", "X": xd, "Y": y8}
+    it = BVF_BASE + (int_impl_j(dict(ctx, J="u8")) if i != "u8" else []) + stub(BVF_CORE) + [("decl", "decl.Bvd")]
+    if i != "u64":
+        over = {"I": "u64", "X": "_u64"}
+        it += [("decl", "int.constants", over)] + [("stub", u, over) for u in INT_METHODS]
+        it += slice_ia("stub", yd)
+    it += [("stub", "bvf.int_len", y), ("stub", "bvf.get_int", y), ("stub", "bvf.set_int", y)] + slice_ia("stub", y)
+    it += [("stub", "bvd.int_len", yd), ("stub", "bvd.get_int", yd), ("stub", "bvd.len", {"X": xd}), ("stub", "bvd.is_empty", {"X": xd}), ("stub", "bvf.shl_assign", {"T": "usize"})]
+    return it + verify(["bvf.append", "bvf.prepend"])
+GROUPS["bvf_splice_bvd"] = dict(name="bvf_splice_bvd", features="#![feature(allocator_api)]", prelude=splicef_bvd_prelude, items=splicef_bvd_items)
 GROUPS["bvd_from_bytes"] = G("bvd_from_bytes", BVD_PRELUDE + ["bytes.rs", "bytes_from.rs"], BVD_BASE + stub(BVD_CORE) + verify(["bvd.from_bytes"]))
 GROUPS["bvd_from_bytes"]["features"] = "#![feature(allocator_api)]"
 GROUPS["bvd_bytes"] = G("bvd_bytes", BVD_PRELUDE + ["bytes.rs"], BVD_BASE + stub(BVD_CORE) + verify(["bvd.to_vec"]))
@@ -596,6 +662,15 @@ GROUPS["bvd_div"] = G("bvd_div", BVD_VAL_PRELUDE + ["value_div.rs", "bvd_div.rs"
     BVD_BASE + stub(BVD_CORE) + stub(["bvd.is_zero", "bvd.significant_bits", "bvd.resize", "bvd.clone", "bvd.from_bvd", "bvd.partial_cmp_bvd"]) +
     [("stub", "bvd.shl_assign", {"T": "usize"}), ("stub", "bvd.shr_assign", {"T": "u32"}), ("stub", "bvd.addsub_bvd", ARITH_D["sub"])] + verify(["bvd.div_rem_bvd"]))
 GROUPS["bvd_div"]["features"] = "#![feature(allocator_api)]"
+MULFORMS_F = ['bvf.mul_ref_owned', 'bvf.mul_owned_ref', 'bvf.mul_owned_owned', 'bvf.mul_assign_ref', 'bvf.mul_assign_owned']
+MULFORMS_D = ['bvd.mul_ref_owned', 'bvd.mul_owned_ref', 'bvd.mul_owned_owned', 'bvd.mul_assign_ref', 'bvd.mul_assign_owned']
+DIVFORMS_DD = ['bvd.div_ref_ref', 'bvd.div_ref_owned', 'bvd.div_owned_ref', 'bvd.div_owned_owned', 'bvd.div_assign_ref', 'bvd.div_assign_owned', 'bvd.rem_ref_ref', 'bvd.rem_ref_owned', 'bvd.rem_owned_ref', 'bvd.rem_owned_owned', 'bvd.rem_assign_ref', 'bvd.rem_assign_owned']
+DIVFORMS_DF = ['bvd.div_ref_ref_bvf', 'bvd.div_ref_owned_bvf', 'bvd.div_owned_ref_bvf', 'bvd.div_owned_owned_bvf', 'bvd.div_assign_ref_bvf', 'bvd.div_assign_owned_bvf', 'bvd.rem_ref_ref_bvf', 'bvd.rem_ref_owned_bvf', 'bvd.rem_owned_ref_bvf', 'bvd.rem_owned_owned_bvf', 'bvd.rem_assign_ref_bvf', 'bvd.rem_assign_owned_bvf']
+GROUPS["bvd_divforms"] = G("bvd_divforms", BVD_VAL_PRELUDE, BVD_BASE + stub(BVD_CORE) + stub(["bvd.div_rem_bvd"]) + verify(DIVFORMS_DD))
+GROUPS["bvd_divforms"]["features"] = "#![feature(allocator_api)]"
+GROUPS["bvd_divforms_bvf"] = dict(name="bvd_divforms_bvf", features="#![feature(allocator_api)]",
+    prelude=lambda ctx: BVD_VAL_PRELUDE + src_bvf_prelude(dict(ctx, SGN="-")),
+    items=lambda ctx: BVD_BASE + src_bvf_items(ctx) + stub(BVD_CORE) + stub(["bvd.div_rem_bvf"]) + verify(DIVFORMS_DF))
 # TryFrom<&Bv> for Bvf<I,N>: the Bv vocabulary (Bvf<u64,2>, Bvd, Bv) lives under suffix XD when I != u64
 def bvf_from_bv_prelude(ctx):
     p = BVF_PRELUDE + ["iarray.rs"]
@@ -683,6 +758,11 @@ BVD_SHIFT_FORMS = ["bvd.%s_%s" % (d, f) for d in ("shl", "shr") for f in ("assig
 GROUPS["bvf_shift_forms"] = G("bvf_shift_forms", BVF_PRELUDE, BVF_BASE + stub(BVF_CORE) + stub(["bvf.shl_assign", "bvf.shr_assign"]) + verify(BVF_SHIFT_FORMS))
 GROUPS["bvd_shift_forms"] = G("bvd_shift_forms", BVD_PRELUDE, BVD_BASE + stub(BVD_CORE) + stub(["bvd.shl_assign", "bvd.shr_assign", "bvd.shl_ref", "bvd.shr_ref"]) + verify(BVD_SHIFT_FORMS))
 GROUPS["bvd_shift_forms"]["features"] = "#![feature(allocator_api)]"
+BV_SHIFT_FORMS = ['bv.shl_assign_ref', 'bv.shl_owned_val', 'bv.shl_owned_ref', 'bv.shl_refrecv_val', 'bv.shl_refrecv_ref', 'bv.shr_assign_ref', 'bv.shr_owned_val', 'bv.shr_owned_ref', 'bv.shr_refrecv_val', 'bv.shr_refrecv_ref']
+GROUPS["bv_shift_forms"] = G("bv_shift_forms", BV_PRELUDE, BV_BASE + stub(["bv.clone"])
+    + stub(["bvf.%s_%s" % (d, f) for d in ("shl", "shr") for f in ("assign_ref", "owned_val", "owned_ref")]) + stub(["bvd.%s_%s" % (d, f) for d in ("shl", "shr") for f in ("assign_ref", "owned_val", "owned_ref")])
+    + verify(BV_SHIFT_FORMS))
+GROUPS["bv_shift_forms"]["features"] = "#![feature(allocator_api)]"
 GROUPS["div_theory"] = dict(name="div_theory", prelude=lambda ctx: WORD_PRELUDE + VALUE_PRELUDE + ["value_div.rs"], items=lambda ctx: [("decl", "decl.Bit")])
 GROUPS["mul_theory"] = dict(name="mul_theory", prelude=lambda ctx: WORD_PRELUDE + VALUE_PRELUDE + ["value_mul.rs"], items=lambda ctx: [("decl", "decl.Bit")])
 
@@ -866,10 +946,10 @@ def mul_jobs(pairs, ws):
     return ([("bvf_mul", pair(i, j)) for (i, j) in pairs] + [("bvf_mul_bvd", dctx(i)) for i in ws] + [("bvd_mul", U64)] + [("bvd_mul_bvf", pair("u64", j)) for j in ws])
 PROPS["C01"]["quick"] += mul_jobs(PQ, WQ)
 PROPS["C01"]["thorough"] += mul_jobs(PT, W4)
-PROPS["C17"] = {"quick": [("iter_bvd", dict(U64, **ITER_BVD)), ("iter_bv", dict(U64, **ITER_BV))] + [("iter_bvf", iter_bvf(i)) for i in WQ],
-                 "thorough": [("iter_bvd", dict(U64, **ITER_BVD)), ("iter_bv", dict(U64, **ITER_BV))] + [("iter_bvf", iter_bvf(i)) for i in W4]}
+PROPS["C17"] = {"quick": [("iter_bvd", dict(U64, **ITER_BVD)), ("iter_bv", dict(U64, **ITER_BV)), ("bvd_iterfwd", dict(U64, **ITER_BVD)), ("bv_iterfwd", dict(U64, **ITER_BV))] + [("iter_bvf", iter_bvf(i)) for i in WQ] + [("bvf_iterfwd", iter_bvf(i)) for i in WQ],
+                 "thorough": [("iter_bvd", dict(U64, **ITER_BVD)), ("iter_bv", dict(U64, **ITER_BV)), ("bvd_iterfwd", dict(U64, **ITER_BVD)), ("bv_iterfwd", dict(U64, **ITER_BV))] + [("iter_bvf", iter_bvf(i)) for i in W4] + [("bvf_iterfwd", iter_bvf(i)) for i in W4]}
 def shift_forms_jobs(ws, ts):
-    return [("bvf_shift_forms", {"I": i, "T": t}) for i in ws for t in ts] + [("bvd_shift_forms", {"I": "u64", "T": t}) for t in ts]
+    return [("bvf_shift_forms", {"I": i, "T": t}) for i in ws for t in ts] + [("bvd_shift_forms", {"I": "u64", "T": t}) for t in ts] + [("bv_shift_forms", {"I": "u64", "T": t}) for t in ts]
 PROPS["C05"]["quick"] += shift_forms_jobs(["u8"], ["u128"])
 PROPS["C05"]["thorough"] += shift_forms_jobs(W4, TYPES6)
 def dshift_ref(ts):
@@ -961,15 +1041,33 @@ def fmt_jobs(ws):
             + [("bvf_fmt_dec", {"I": i}) for i in ws] + [("bvd_fmt_dec", U64), ("bv_fmt_dec", U64)])
 PROPS["C14"] = {"quick": fmt_jobs(WQ), "thorough": fmt_jobs(W4)}
 
+def slice_conv_jobs(pairs, ws):
+    """conversions from a slice of native integers: TryFrom<&[J]> for Bvf<I,N>, From<&[J]> for Bvd, and the set_int of Bvd they use"""
+    return ([("bvf_from_slice", {"I": i, "J": j}) for (i, j) in pairs] + [("bvf_set_int", {"I": i, "J": j}) for (i, j) in pairs]
+            + [("bvd_from_slice", {"I": "u64", "J": j}) for j in ws] + [("bvd_set_int", {"I": "u64", "J": j}) for j in ws])
+for _p in ("C11", "C12"):
+    PROPS[_p]["quick"] += slice_conv_jobs([("u64", "u8"), ("u8", "u64")], ["u8"])
+    PROPS[_p]["thorough"] += slice_conv_jobs(PT, W4)
 def splice_jobs(ws):
-    return ([("bvd_splice", dict(U64, **SPLICE_D)), ("bvd_insert", U64)] + [("bvd_splice_bvf", splice_bvf_ctx(j)) for j in ws]
-            + [("bvf_splice", splicef_ctx(i)) for i in ws] + [("bvf_set_int", {"I": i, "J": "u8"}) for i in ws] + [("bvf_insert", {"I": i}) for i in ws])
+    return ([("bvd_splice", dict(U64, **SPLICE_D)), ("bvd_insert", dict(U64, **OPND)), ("bvd_splice_bv", SPLICE_D_BV), ("bvf_splice_bv", SPLICE_F_BV), ("bv_splice", SPLICE_D_BV), ("bv_insert", SPLICE_D_BV)]
+            + [("bvd_splice_bvf", splice_bvf_ctx(j)) for j in ws] + [("bvf_splice", splicef_ctx(i)) for i in ws] + [("bvf_splice_bvd", splicef_bvd_ctx(i)) for i in ws]
+            + [("bvf_set_int", {"I": i, "J": "u8"}) for i in ws] + [("bvf_insert", dict({"I": i}, **OPND)) for i in ws])
 PROPS["C07"]["quick"] += splice_jobs(WQ)
 PROPS["C07"]["thorough"] += splice_jobs(W4)
-PROPS["C18"]["quick"] += [("bvd_splice", dict(U64, **SPLICE_D))]
-PROPS["C18"]["thorough"] += [("bvd_splice", dict(U64, **SPLICE_D))] + [("bvd_splice_bvf", splice_bvf_ctx(j)) for j in W4]
+PROPS["C18"]["quick"] += [("bvd_splice", dict(U64, **SPLICE_D)), ("bv_splice", SPLICE_D_BV)]
+PROPS["C18"]["thorough"] += [("bvd_splice", dict(U64, **SPLICE_D)), ("bv_splice", SPLICE_D_BV), ("bvd_splice_bv", SPLICE_D_BV)] + [("bvd_splice_bvf", splice_bvf_ctx(j)) for j in W4]
 PROPS["C19"]["quick"] += [("bvf_splice", splicef_ctx("u8"))]
 PROPS["C19"]["thorough"] += [("bvf_splice", splicef_ctx(i)) for i in W4]
+
+def muldiv_forms_jobs(pairs, ws):
+    return ([("bvf_divforms", pair(i, j)) for (i, j) in pairs] + [("bvf_mulforms", pair(i, j)) for (i, j) in pairs]
+            + [("bvd_divforms", U64), ("bvd_mulforms", U64)] + [("bvd_divforms_bvf", pair("u64", j)) for j in ws])
+PROPS["C20"]["quick"] += muldiv_forms_jobs([("u64", "u64"), ("u8", "u64")], ["u8"])
+PROPS["C20"]["thorough"] += muldiv_forms_jobs(PT, W4)
+PROPS["C02"]["quick"] += [("bvf_divforms", pair("u64", "u8")), ("bvd_divforms", U64)]
+PROPS["C02"]["thorough"] += [("bvf_divforms", pair(i, j)) for (i, j) in PT] + [("bvd_divforms", U64)] + [("bvd_divforms_bvf", pair("u64", j)) for j in W4]
+PROPS["C01"]["quick"] += [("bvf_mulforms", pair("u64", "u8")), ("bvd_mulforms", U64)]
+PROPS["C01"]["thorough"] += [("bvf_mulforms", pair(i, j)) for (i, j) in PT] + [("bvd_mulforms", U64)]
 
 MANIFEST_TEXT = {}
 TRUST_NOTE = ("Trusted base (also listed verbatim in the evidence): assumed contracts of std functions (T1: overflowing_add/sub, "
@@ -986,7 +1084,7 @@ MANIFEST_TEXT["C05"] = dict(
 COVER_BVF = ("Covered so far: the Bvf<u8|u16|u32|u64, N> implementation (symbolic N), the Bvd implementation (symbolic word count, spare capacity included) and the Bv (auto) layer on top of them "
              "(dispatch on the inline Bvf<u64,2> / heap Bvd representation incl. the switching in reserve, shrink_to_fit, push, resize, copy_range; abstract view slen/sbit/scap), all lengths and values, dev and release expansions. ")
 TODO_NOTE = "Not yet under contract (so a change there is NOT detected by the proof stage yet): u128/usize word types, Bv::append/prepend"
-MANIFEST_TEXT["C05"]["note"] = (COVER_BVF + "Units: ShlAssign/ShrAssign<T> for all six T, shl_in, shr_in. " + TODO_NOTE + ". The by-value / by-reference shift forms of Bvf and Bvd (forwarders) are verified against the same contract. " + TRUST_NOTE)
+MANIFEST_TEXT["C05"]["note"] = (COVER_BVF + "Units: ShlAssign/ShrAssign<T> for all six T, shl_in, shr_in. " + TODO_NOTE + ". The by-value / by-reference shift forms of Bvf, Bvd and Bv (forwarders: dispatch on the representation, clone + shift) are verified against the same contract. " + TRUST_NOTE)
 MANIFEST_TEXT["C06"] = dict(
     text=("Proof: the real bodies of Bvf::rotl / Bvf::rotr are verified against `bit t of result == bit (t+n-k) mod n (resp. (t+k) mod n) of self`, "
           "length unchanged, storage beyond len zero, for all n, values and 0 <= k <= n; inverse/complement laws follow from proved index lemmas (spec/prelude/rot.rs)."),
@@ -1002,10 +1100,12 @@ MANIFEST_TEXT["C08"] = dict(
 MANIFEST_TEXT["C07"] = dict(
     text=("Proof: push/pop/set/resize, the trait defaults truncate/sign_extend, and append / prepend / insert are verified against list-edit contracts that fix every storage bit of the result "
           "(append: the old bits, then the operand's bits, length = sum; prepend: the operand's bits, then the old bits shifted up; insert(i, x): x's bits at i..i+len(x), the rest shifted up; empty operands included). "
-          "append/prepend are the real word-granular splice of Bvd (operand Bvd or Bvf<J,N2>, J = u8..u64: aligned copy, funnel of two operand words across the word boundary, final partial word) and the real byte-granular splice of Bvf<I,N> "
-          "(operand Bvf<I,N2>; through the verified get_int::<u8> / set_int::<u8>), proved against one splice theory each (spec/prelude/splice.rs, splice8.rs); exceeding a fixed capacity is a reachable panic only under "
-          "`len + operand len > capacity` (panics_if), prepend of an empty operand returns unchanged; insert is the trait default (split_off + two appends) over those contracts."),
-    note=COVER_BVF + TODO_NOTE + ". Not under contract (second engine only): append/prepend/insert of Bv and with operands of another implementation than listed (Bvf subject with Bvd/Bv operand, Bv operands), Extend/FromIterator (`iter.for_each(|b| self.push(b))`: closure-driven adapter). "
+          "append/prepend are the real word-granular splice of Bvd (operand Bvd, Bv or Bvf<J,N2>, J = u8..u64: aligned copy, funnel of two operand words across the word boundary, final partial word), the real byte-granular splice of Bvf<I,N> "
+          "(operand Bvf<I,N2> or Bvd for I = u8..u64, operand Bv for the inline type Bvf<u64,2>; through the verified get_int::<u8> / set_int::<u8>), each proved against one splice theory (spec/prelude/splice.rs, splice8.rs), and the dispatch of Bv "
+          "(operand Bv: stays inline exactly when the result fits 128 bits, otherwise converts to the heap representation first); exceeding a fixed capacity is a reachable panic only under "
+          "`len + operand len > capacity` (panics_if), prepend of an empty operand returns unchanged; insert is the trait default (split_off + two appends) for Bvf, Bvd and Bv (infix of the subject's own implementation) over those contracts."),
+    note=COVER_BVF + TODO_NOTE + ". Not under contract (second engine only): Bvf subject with a Bvf operand of ANOTHER word size, Bv subject with a Bvf/Bvd operand, Extend/FromIterator (`iter.for_each(|b| self.push(b))`: closure-driven adapter). "
+         "R30 (unit-local): the arguments of `self.set_int(last, self.get_int(last).unwrap() | prefix.get_int(last).unwrap())` and `*b |= prefix.get_int(last).unwrap()` are bound to named temporaries in evaluation order so that the proof can refer to them. "
          "Bvf::set_int and the byte reads rest on the slice-level contract T2 (unsafe align_to: u8 chunks of wider words). " + TRUST_NOTE)
 MANIFEST_TEXT["C19"] = dict(
     text=("Proof, both build profiles: every verified Bvf unit establishes wf (len <= capacity, storage beyond len zero); zeros/ones/push/resize/sign_extend/repeat carry "
@@ -1065,13 +1165,13 @@ MANIFEST_TEXT["C11"] = dict(
           "the capacity, otherwise length min(w, capacity), wf, VALUE == x), From<uN> for Bvd (one word, length w, value x), From<uN> for Bv (inline), TryFrom<&Bvf<I,N>> / TryFrom<&Bvd> / TryFrom<&Bv> for uN "
           "(Err exactly when significant_bits > w, otherwise the VALUE; no reachable panic, empty vectors included) are verified at value level, on top of the verified significant_bits, get_int readers and StaticCast; "
           "Bit <-> integer / bool conversions are verified (bit.unit). While writing these contracts the proof found D11 (Bvf::<I,0>::try_from panicked), repaired in /repo." + DYN_NOTE),
-    note=("Not under contract (second engine only): u128 and usize as native types (no bit-vector vocabulary for them; Bvd's loop really accumulates only for u128), slice conversions From<&[I]>, by-value / by-reference forwarders. "
+    note=("Not under contract (second engine only): u128 and usize as native types (no bit-vector vocabulary for them; Bvd's loop really accumulates only for u128), From<&[I]> for Bv, by-value / by-reference forwarders (the slice conversions TryFrom<&[J]> for Bvf and From<&[J]> for Bvd are verified, see C12). "
           "Assumed: {uN}::checked_shr / checked_shl / leading_zeros (T1, vstd's axioms for leading_zeros), A-size32 for TryFrom<uN> for Bvf (storage below 2^32 bits: the shift amount is cast to u32), the slice-level get_int where the slice word is at least as wide as the chunk (T2: unsafe align_to; the word-combining branch for narrower slice words is verified). " + TRUST_NOTE))
 MANIFEST_TEXT["C12"] = dict(
     text=("Proof: TryFrom<&Bvf<I1,N1>> for Bvf<I2,N2> (any two word sizes), TryFrom<&Bvd> for Bvf<I,N> and From<&Bvf<I,N>> for Bvd are verified against the contract "
           "`Err(NotEnoughCapacity) exactly when the source is LONGER than the target capacity (whatever its value); otherwise Ok with the same length, the same bit at every index below len, "
           "storage beyond len zero (wf), and for Bvd exactly ceil(len/64) words`, on top of the verified chunk readers IArray::get_int/int_len of Bvf and Bvd (every word-size pair)." + DYN_NOTE),
-    note=("Also verified: From<&Bv>/From<Bvd>/From<&Bvd>/From<&Bvf<J,N>> for Bv (inline exactly when the length / the source capacity fits 128 bits) and From<&Bv> for Bvd. TryFrom<&Bv> for Bvf<I,N> is verified too. Not yet under contract (second engine only): the by-value forms (forwarders), From<&[I]>, new/into_inner round trip (new/into_inner themselves are verified, see C07). "
+    note=("Also verified: From<&Bv>/From<Bvd>/From<&Bvd>/From<&Bvf<J,N>> for Bv (inline exactly when the length / the source capacity fits 128 bits) and From<&Bv> for Bvd. TryFrom<&Bv> for Bvf<I,N> is verified too. TryFrom<&[J]> for Bvf<I,N> and From<&[J]> for Bvd (zeros + one set_int per element; every pair of word types) are verified: Err(NotEnoughCapacity) exactly when len * BITS exceeds a fixed capacity, otherwise element k occupies bits k*BITS..(k+1)*BITS. Not yet under contract (second engine only): the by-value forms (forwarders), From<&[I]> for Bv, new/into_inner round trip (new/into_inner themselves are verified, see C07). "
           "The slice-level int_len is verified for every pair of word types, and get_int / set_int are verified where the slice word is narrower than the chunk (word-combining / word-splitting loop of utils.rs; the dead unsafe arm is removed by R25 exactly as monomorphisation removes it). Where the slice word is at least as wide as the chunk the code is `unsafe { align_to }`, outside Verus: its contract stays trusted (T2) and is exercised only by the native fuzz harnesses. " + TRUST_NOTE))
 MANIFEST_TEXT["C13"] = dict(
     text=("Proof: the real bodies of to_vec, from_bytes, read and write of Bvf<I,N> (I = u8..u64, symbolic N), Bvd and Bv, extracted from /repo on every run, are verified by Verus. "
@@ -1114,16 +1214,16 @@ MANIFEST_TEXT["C17"] = dict(
           "`remaining()` = the bits range.start..range.end of the vector front to back, under the invariant start <= end <= len: next/next_back return and remove the first/last remaining bit, nth(n)/nth_back(n) return "
           "remaining[n] / remaining[len-1-n] and remove everything up to it (None and an EMPTY remainder when n >= remaining, for every n up to usize::MAX: no overflow is reachable), size_hint/count/last are exact and "
           "do not modify the iterator, the vector is never modified. Any interleaving of the calls therefore agrees with a slice iterator over the same bits (induction over the calls)." + DYN_NOTE),
-    note=("Emitted as inherent methods of BitIterator<'a, T> for each concrete T (the std Iterator trait has no contract hook); `Self::Item` resolved to Bit (R21). Not under contract: the forwarding BitVector::iter / "
-          "IntoIterator::into_iter (one call to BitIterator::new), std's default adapter methods. " + TRUST_NOTE))
+    note=("Emitted as inherent methods of BitIterator<'a, T> for each concrete T (the std Iterator trait has no contract hook); `Self::Item` resolved to Bit (R21). The forwarders BitVector::iter and IntoIterator::into_iter for &Bvf, &Bvd, &Bv (one call to BitIterator::new each; emitted against the mirror trait VIntoIterator) are verified: "
+          "the iterator starts with the whole vector remaining. Not under contract: std's default adapter methods. " + TRUST_NOTE))
 MANIFEST_TEXT["C20"] = dict(
     text=("Proof (for the forms listed; exploration for the rest): every form of + - & | ^ funnels into a compound assignment `a op= &b`; those bodies are verified (C01, C04), and the forwarding forms are verified against "
           "the SAME contract as the assignment they forward to: `a op &b` and `&a op &b` (generic impl<T> instantiated at T = &Bvd, &Bvf<J,N>) for Bvd and Bvf left operands, `a op= b` by value (Bvd), Bv op= &Bvf / &Bvd / &Bv "
           "(dispatch on both operands), and the auto type end to end: `&a op &b` and `a op &b` on Bv (match on the left operand -> the generic form of Bvf<u64,2> / Bvd instantiated at T = &Bv -> Bvf/Bvd op= &Bv dispatching on the right operand -> the verified bodies). Shifts: `a <<= k`, `a >>= k` for Bvf, Bvd, Bv and the separately written `&bvd << k` / `&bvd >> k` bodies are verified against one contract (saturating for amounts >= len, any of the six "
-          "amount types); `!a` for Bvf, &Bvf, Bvd, &Bvd (separate body), Bv. All contracts state the result over the whole abstract view and leave borrowed operands untouched (they are `&` parameters: Rust's type system, and "
+          "amount types); `!a` for Bvf, &Bvf, Bvd, &Bvd (separate body), Bv. The forms of * / % are verified too for Bvf x Bvf (any two word sizes), Bvd x Bvd and (for / %) Bvd x Bvf: the by-value operand forms of `&a * &b`, `*=`, and all four receiver/operand forms of `/` and `%` plus `/=`, `%=` forward to the verified `&a * &b` / div_rem bodies and inherit their VALUE-level contract (generated units spec/units/mulforms.unit, divforms.unit). All contracts state the result over the whole abstract view and leave borrowed operands untouched (they are `&` parameters: Rust's type system, and "
           "the contracts mention only their old value). Exploration for the remaining forms: every owned/borrowed/assign form of + - * / % & | ^ << >> ! and the native-integer forms are compared against each other "
           "(identical length and bits, borrowed operands unchanged)." + DYN_NOTE),
-    note=("Native-integer right operands of the compound assignments + - & | ^ are verified for Bvf, Bvd and Bv (x: u8..u64): same result as with a vector of length w and value x. Not under contract (second engine only): forms of * / %, the non-assigning native-integer forms, Bv's forms with a by-value or Bvf/Bvd right operand, Bv's shift forwarders (the shift forwarders of Bvf and Bvd are verified). "
+    note=("Native-integer right operands of the compound assignments + - & | ^ are verified for Bvf, Bvd and Bv (x: u8..u64): same result as with a vector of length w and value x. Not under contract (second engine only): forms of * / % with a Bvd/Bv operand of a Bvf or with Bv on either side, the non-assigning native-integer forms, Bv's forms with a by-value or Bvf/Bvd right operand (the shift forwarders of Bvf, Bvd and Bv are verified). "
           "Assumed: derive(Clone) of Bvf/Bvd returns a structurally equal value (T1). " + TRUST_NOTE))
 MANIFEST_TEXT["C01"] = dict(
     text=("Proof (add/sub): the real bodies of AddAssign/SubAssign<&Bvf<I2,N2>> for Bvf<I1,N1> (both the same-word-size branch and the re-chunking branch through get_int) are verified against the VALUE-level contract "
